@@ -50,7 +50,7 @@ Reset ==
   /\ zone' = NoZone /\ prior' = FALSE /\ cur' = Empty /\ tombs' = {} /\ cand' = {}
   /\ fetched' = Empty /\ revOnly' = FALSE /\ staged' = {} /\ newRev' = FALSE
   /\ tombErr' = FALSE /\ stateErr' = FALSE
-  /\ nRefresh' = 0 /\ nRestart' = 0 /\ nWF' = 0 /\ nRF' = 0
+  /\ nRefresh' = 0 /\ nRestart' = 0 /\ nCrash' = 0 /\ nWF' = 0 /\ nRF' = 0
   /\ seenSince' = [k \in Keys |-> None] /\ earned' = {} /\ missSince' = [k \in Keys |-> None]
   /\ revAcc' = {} /\ revVol' = {} /\ gT' = {} /\ gFull' = FALSE /\ gRevSet' = {}
   /\ ev' = [a |-> "Reset"]
